@@ -19,6 +19,11 @@ KEYWORDS = ['as', 'break', 'const', 'continue', 'crate', 'else', 'enum', 'extern
             'abstract', 'become', 'box', 'do', 'final', 'macro', 'override', 'priv', 'typeof', 'unsized', 'virtual', 'yield', 'try']
 
 
+TYPE_KINDS = ['INTEGER', 'INTEGER (0..7)', 'BOOLEAN', 'NULL', 'ENUMERATED { a, b }', 'CHOICE { a NULL }', 'SET { a NULL }', 'SEQUENCE OF NULL', 'SET OF BOOLEAN', 'BIT STRING', 'OCTET STRING',
+              'UTF8String', 'IA5String', 'NumericString', 'PrintableString', 'VisibleString', 'BMPString', 'GeneralString', 'OBJECT IDENTIFIER', 'UTCTime', 'GeneralizedTime', 'ANY', 'Rr', 'Rr (WITH COMPONENTS { z })',
+              'SEQUENCE OF Rr', 'BIT STRING { a(0) }', 'INTEGER { a(0) }', 'OCTET STRING (SIZE (4))', '[APPLICATION 3] UTCTime', '[5] Rr']
+
+
 def jobs(tier, seed):
     lmax = 4 if tier == 'quick' else 6
     js = []
@@ -140,6 +145,8 @@ def role_text(role, name):
     """(module text, item kind, where the generated identifier is found)"""
     if role == 'title':
         return f"M DEFINITIONS AUTOMATIC TAGS ::= BEGIN {name} ::= SEQUENCE {{ a BOOLEAN }} END"
+    if role.startswith('title:'):
+        return f"M DEFINITIONS AUTOMATIC TAGS ::= BEGIN Rr ::= SEQUENCE {{ z NULL }} {name} ::= {role[6:]} END"
     if role == 'snake':
         return f"M DEFINITIONS AUTOMATIC TAGS ::= BEGIN T ::= SEQUENCE {{ {name} BOOLEAN }} END"
     if role == 'const':
@@ -188,6 +195,11 @@ def judge_text(items, info, chk, pc, nwarn):
         st = [i for i in its if i.kind == 'struct']
         if st:
             target, attrs = st[0].name, st[0].attrs
+    elif role.startswith('title:'):
+        # a type assignment of any built-in kind (each kind has its own builder function)
+        st = [i for i in its if i.kind in ('struct', 'enum') and i.name != 'Rr' and not i.name.startswith('Anonymous')]
+        if st:
+            target, attrs = st[-1].name, st[-1].attrs
     elif role == 'snake':
         st = [i for i in its if i.kind == 'struct' and i.name == 'T']
         if st and st[0].fields:
@@ -251,6 +263,10 @@ def text_shapes(tier):
             elif nm[0].isupper():
                 continue
             out.append((f"C16 text {role} {n}", role_text(role, n), {'role': role, 'name': n}))
+    # the type-name rule for every kind of type assignment
+    for kind in TYPE_KINDS:
+        for n in ('Ab-cd', 'Self', 'X-1y'):
+            out.append((f"C16 text type assignment [{kind.split('{')[0].strip()}] {n}", role_text('title:' + kind, n), {'role': 'title:' + kind, 'name': n}))
     return out
 
 
